@@ -9802,9 +9802,13 @@ bool SoPlexBase<R>::writeDualFileReal(const char* filename, const NameSet* rowNa
    SPxLPBase<R> dualLP;
    _realLP->buildDualProblem(dualLP);
    dualLP.setOutstream(spxout);
+   dualLP.setTolerances(_realLP->tolerances());
 
-   // swap colnames and rownames
-   dualLP.writeFileLPBase(filename, colNames, rowNames, nullptr, writeZeroObjective);
+   // swap colnames and rownames; the dual has additional columns for bounds and ranged rows: names only if they fit
+   dualLP.writeFileLPBase(filename,
+                          (colNames != nullptr && colNames->num() == dualLP.nRows()) ? colNames : nullptr,
+                          (rowNames != nullptr && rowNames->num() == dualLP.nCols()) ? rowNames : nullptr,
+                          nullptr, writeZeroObjective);
    return true;
 }
 
